@@ -200,6 +200,10 @@ def run(model, col, tier):
               "every location carries the parser's source mapping", "locations are created without the parser's source mapping", PARSER, gl)
     # ---------------- R20.2 ----------------------------------------------------
     pa = pc.own_method("Parse")
+    if pa is not None:
+        from ..sem import expand_helpers as _xh202
+
+        pa = _xh202(model, pc, pa)  # e.g. an extracted `__CreateSourceMapping(text, name)` is read in place
     textp = pa.args.args[1].arg
     sm = [n for n in ast.walk(pa) if isinstance(n, ast.Assign) and isinstance(n.value, ast.Call) and last_attr(n.value) == "SourceMapping"]
     prs = [c for c in ast.walk(pa) if isinstance(c, ast.Call) and last_attr(c) == "parse"]
@@ -419,7 +423,25 @@ def run(model, col, tier):
               "text's table and every line number is wrong", ASTF, init)
     loops = [n for n in ast.walk(init) if isinstance(n, ast.For)]
     good = False
-    if loops:
+    # however the table is computed (a loop, accumulate, a comprehension): folded over sample texts it must list the offset
+    # at which each line starts
+    folded_tbl = None
+    try:
+        from ..miniev import CannotEval as _CE205, run_pure as _rp205
+
+        folded_tbl = []
+        for text_ in ("", "a", "a\n", "a\nb", "\n\n", "ab\ncd\n\nx", "x\r\ny\n", "int a;\n  float b;\n"):
+            env_ = {}
+            _rp205(init, [None, text_], None, 4000, None, env_)
+            tables_ = [v for k, v in env_.items() if k.startswith("self.") and isinstance(v, list)]
+            want_ = [0] + [i + 1 for i, ch in enumerate(text_) if ch == "\n"]
+            if len(tables_) != 1 or tables_[0] != want_:
+                folded_tbl.append(f"{text_!r}: {tables_[0] if tables_ else None}, expected {want_}")
+    except Exception:
+        folded_tbl = None
+    if folded_tbl is not None:
+        good = not folded_tbl
+    elif loops:
         lp = loops[0]
         it_ok = unparse(lp.iter) in (f"{init.args.args[1].arg}.split('\\n')",)
         lv_ = lp.target.id if isinstance(lp.target, ast.Name) else None
